@@ -35,8 +35,13 @@ Open Scope N_scope.
 Inductive expr :=
 | EIdent (id : N)      (* `xID`  (or `gID` when a function of that name is declared): pure *)
 | ECall (id : N)       (* `xID()` / `gID()`: may throw *)
-| ELit                 (* `1`: pure (the analyzer nevertheless records may_throw) *)
-| EThis.               (* `this`: pure, no effect on the analysis *)
+| ELit                 (* `1`, `[1]`, `({a: 1})`: pure (the analyzer nevertheless records may_throw) *)
+| EThis                (* `this`: pure, no effect on the analysis *)
+| ESpread (id : N)     (* `[...xID]`: an array literal with a spread of an identifier - throws when xID is not iterable *)
+| EComputed (id : N).  (* `({[xID]: 1})`: an object literal with a computed key - ToPropertyKey(xID) may throw *)
+
+(* evaluating the expression may throw (for the analyzer every expression except an identifier / `this` "may throw") *)
+Definition e_throws (e : expr) : bool := match e with ECall _ | ESpread _ | EComputed _ => true | _ => false end.
 
 (* the tests of if / while / do-while / for, as far as mod.rs and the semantics distinguish them.  mod.rs asks swc's
    `cast_to_bool` whether the test of a LOOP is `Known(true)` (nothing else), and visits the test as an expression *)
@@ -65,7 +70,8 @@ Inductive stmt :=
 | SIfElse (p : N) (c : cond) (s1 s2 : stmt)
 | SWhile (p : N) (c : cond) (b : stmt)
 | SDoWhile (p : N) (b : stmt) (c : cond)
-| SFor (p : N) (c : option cond) (b : stmt)            (* `for(;c;) b` / `for(;;) b` *)
+| SFor (p : N) (i : option expr) (c : option cond) (u : option expr) (b : stmt)
+                                                        (* `for (i; c; u) b`, each part optional: init, test, update *)
 | SForIn (p : N) (b : stmt)                            (* `for (var k in o) b` *)
 | SForOf (p : N) (b : stmt)                            (* `for (var k of o) b` *)
 | SForHead (p : N) (g : bool) (fp : N) (pb : N) (hbody : stmts) (b : stmt)   (* `for (const [k = FN] of o) b` *)
@@ -91,7 +97,7 @@ Definition pos (s : stmt) : N :=
   match s with
   | SExpr p _ | SEmpty p | SVar p _ _ | SFnDecl p _ _ _ | SArrowStmt p _ _ | SGetterStmt p _ _ _ | SRet p _ | SThrow p _
   | SBrk p _ | SCont p _ | SBlock p _ | SIf p _ _ | SIfElse p _ _ _ | SWhile p _ _ | SDoWhile p _ _
-  | SFor p _ _ | SForIn p _ | SForOf p _ | SForHead p _ _ _ _ _ | SSwitch p _ | SLabel p _ _ | STry p _ _ _ _ _ _ => p
+  | SFor p _ _ _ _ | SForIn p _ | SForOf p _ | SForHead p _ _ _ _ _ | SSwitch p _ | SLabel p _ _ | STry p _ _ _ _ _ _ => p
   end.
 
 Fixpoint stmts_to_list (l : stmts) : list stmt :=
@@ -118,7 +124,7 @@ Fixpoint keys (s : stmt) : list N :=
   | SBlock p b => p :: keys_l b
   | SIf p _ a => p :: keys a
   | SIfElse p _ a b => p :: keys a ++ keys b
-  | SWhile p _ b | SDoWhile p b _ | SFor p _ b | SForIn p b | SForOf p b | SLabel p _ b => p :: keys b
+  | SWhile p _ b | SDoWhile p b _ | SFor p _ _ _ b | SForIn p b | SForOf p b | SLabel p _ b => p :: keys b
   | SSwitch p cs => p :: keys_c cs
   | STry p bp blk h hb f fb =>
       p :: bp :: keys_l blk
@@ -142,7 +148,7 @@ Fixpoint qkeys (s : stmt) : list N :=
   | SBlock p b => p :: qkeys_l b
   | SIf p _ a => p :: qkeys a
   | SIfElse p _ a b => p :: qkeys a ++ qkeys b
-  | SWhile p _ b | SDoWhile p b _ | SFor p _ b | SForIn p b | SForOf p b | SLabel p _ b => p :: qkeys b
+  | SWhile p _ b | SDoWhile p b _ | SFor p _ _ _ b | SForIn p b | SForOf p b | SLabel p _ b => p :: qkeys b
   | SSwitch p cs => p :: qkeys_c cs
   | STry p bp blk h hb f fb =>
       p :: bp :: qkeys_l blk
@@ -160,9 +166,10 @@ Fixpoint nodupb (l : list N) : bool :=
   match l with [] => true | x :: r => negb (memN x r) && nodupb r end.
 
 Definition is_loop (s : stmt) : bool :=
-  match s with SWhile _ _ _ | SDoWhile _ _ _ | SFor _ _ _ | SForIn _ _ | SForOf _ _ | SForHead _ _ _ _ _ _ => true | _ => false end.
+  match s with SWhile _ _ _ | SDoWhile _ _ _ | SFor _ _ _ _ _ | SForIn _ _ | SForOf _ _ | SForHead _ _ _ _ _ _ => true | _ => false end.
 Definition is_fndecl (s : stmt) : bool := match s with SFnDecl _ _ _ _ => true | _ => false end.
-Definition cond_ok (c : cond) : bool := match c with COpaque ELit => false | _ => true end.
+(* an opaque test is an identifier, a call or `this` (a literal / array / object as a test has a known value) *)
+Definition cond_ok (c : cond) : bool := match c with COpaque (ELit | ESpread _ | EComputed _) => false | _ => true end.
 (* (a swc defect is NOT modelled: for NaN-valued arithmetic such as `"a" - 1` cast_to_bool answers Known(true);
    the generator does not produce such tests as `CTrue`, they are a known finding of their own) *)
 
@@ -189,7 +196,7 @@ Fixpoint jump_ok (j : jctx) (mine : list N) (s : stmt) : bool :=
   | SIf _ c a => cond_ok c && negb (is_fndecl a) && jump_ok j [] a
   | SIfElse _ c a b => cond_ok c && negb (is_fndecl a) && negb (is_fndecl b) && jump_ok j [] a && jump_ok j [] b
   | SWhile _ c b | SDoWhile _ b c => cond_ok c && negb (is_fndecl b) && jump_ok (j_in_loop j mine) [] b
-  | SFor _ c b => match c with Some c => cond_ok c | None => true end && negb (is_fndecl b) && jump_ok (j_in_loop j mine) [] b
+  | SFor _ _ c _ b => match c with Some c => cond_ok c | None => true end && negb (is_fndecl b) && jump_ok (j_in_loop j mine) [] b
   | SForIn _ b | SForOf _ b => negb (is_fndecl b) && jump_ok (j_in_loop j mine) [] b
   | SForHead _ _ _ _ hb b => jump_ok_l jtop hb && negb (is_fndecl b) && jump_ok (j_in_loop j mine) [] b
   | SSwitch _ cs => jump_ok_c (j_in_switch j) cs
@@ -215,7 +222,7 @@ Fixpoint nofn (s : stmt) : bool :=
   | SBlock _ b => nofn_l b
   | SIf _ _ a => nofn a
   | SIfElse _ _ a b => nofn a && nofn b
-  | SWhile _ _ b | SDoWhile _ b _ | SFor _ _ b | SForIn _ b | SForOf _ b | SLabel _ _ b => nofn b
+  | SWhile _ _ b | SDoWhile _ b _ | SFor _ _ _ _ b | SForIn _ b | SForOf _ b | SLabel _ _ b => nofn b
   | SSwitch _ cs => nofn_c cs
   | STry _ _ blk _ hb _ fb => nofn_l blk && nofn_l hb && nofn_l fb
   | _ => true
@@ -241,7 +248,7 @@ Fixpoint fnsafe (s : stmt) : bool :=
   | SFnDecl _ _ _ b | SArrowStmt _ _ b | SGetterStmt _ _ _ b | SBlock _ b => fnsafe_l b
   | SIf _ _ a => fnsafe a
   | SIfElse _ _ a b => negb (is_fnstart a) && negb (is_fnstart b) && fnsafe a && fnsafe b
-  | SWhile _ _ b | SDoWhile _ b _ | SFor _ _ b => negb (is_fnstart b) && fnsafe b
+  | SWhile _ _ b | SDoWhile _ b _ | SFor _ _ _ _ b => negb (is_fnstart b) && fnsafe b
   | SForIn _ b | SForOf _ b | SLabel _ _ b => fnsafe b
   | SForHead _ _ _ _ hb b => fnsafe_l hb && fnsafe b
   | SSwitch _ cs => fnsafe_c cs
@@ -262,7 +269,7 @@ Fixpoint has_default (cs : cases) : bool :=
 Fixpoint tests_throw (cs : cases) : bool :=
   match cs with
   | CNil => false
-  | CCons _ t _ _ r => match t with Some (ECall _) => true | _ => false end || tests_throw r
+  | CCons _ t _ _ r => match t with Some e => e_throws e | None => false end || tests_throw r
   end.
 
 Definition wfb (p : program) : bool :=
